@@ -62,6 +62,19 @@ def dispatch(eng, func, args, kwargs):
             return False
         c = T.conj(list(u_eq(a, b).reshape(-1)))
         return eng.decide(c, "equal")
+    if name == "allclose" and anysym and not kwargs.get("equal_nan", False):
+        # torch.allclose has a documented real-valued meaning, |a - b| <= atol + rtol * |b| for every element: a recorded decision
+        # (both outcomes are explored), so that library code branching on a tolerance comparison is followed instead of given up on
+        a, b = eng.sym(args[0]), eng.sym(args[1])
+        rtol = kwargs.get("rtol", args[2] if len(args) > 2 else 1e-05)
+        atol = kwargs.get("atol", args[3] if len(args) > 3 else 1e-08)
+        try:
+            a, b = np.broadcast_arrays(a, b)
+        except ValueError:
+            raise UnsupportedOp("allclose on non-broadcastable symbolic operands")
+        bound = u_add(eng.sym(float(atol)), u_mul(eng.sym(float(rtol)), u_abs(b)))
+        c = T.conj(list(u_le(u_abs(u_sub(a, b)), bound).reshape(-1)))
+        return eng.decide(c, "allclose")
     if name in TEST_ONLY and anysym:
         raise UnsupportedOp(f"{name} on symbolic data (tolerance comparison has no R semantics)")
 
